@@ -444,6 +444,40 @@ fn qlaws_ev<T: StratNum>(case: &Value, out: &mut Vec<Value>) {
         "isfloat": T::NAME == "n64", "wide": wide, "big": bexp > 51}));
 }
 
+/// C19 on lanes of n-D arrays: q = 0 gives each lane's minimum and q = 1 its maximum for every strategy, at the position of
+/// that lane in a result that has the input's shape without the axis.  Lanes are read through ndarray's `lanes()`.
+fn ndlaws_ev<T: StratNum>(case: &Value, out: &mut Vec<Value>) {
+    let lay = Lay::from_json(&case["lay"]);
+    let axis = jint(case, "axis") as usize;
+    let data: Vec<T> = jints(&case["data"]).iter().map(|&v| T::make(v, -1)).collect();
+    let pad = T::make(-7, -1);
+    let parent0 = lay.build(&data, |_| pad.clone());
+    let lanes: Vec<Vec<T>> = { let v = lay.view(&parent0); lanes_of(&v, axis) };
+    let mut all: Vec<T> = data.clone();
+    all.push(pad.clone());
+    let rm = rank_map(&all);
+    let mut shape = lay.shape();
+    shape.remove(axis);
+    let mut res0 = serde_json::Map::new();
+    let mut res1 = serde_json::Map::new();
+    let mut shape_ok = true;
+    let mut failed: Vec<&str> = Vec::new();
+    for &s in STRATS {
+        for (q, dst) in [(0.0, &mut res0), (1.0, &mut res1)] {
+            let mut parent = parent0.clone();
+            verif_hooks::set_script(vec![], Fallback::Drawn);
+            let r = guarded(|| { let mut v = lay.view_mut(&mut parent); single_call(&mut v, axis, n64(q), s) });
+            verif_hooks::take_log();
+            match r {
+                Ok(Ok(a)) => { if a.shape() != &shape[..] { shape_ok = false; } dst.insert(s.to_string(), json!(a.iter().map(|x| rank2_of(&rm, x)).collect::<Vec<_>>())); }
+                _ => { if !failed.contains(&s) { failed.push(s); } dst.insert(s.to_string(), json!([])); }
+            }
+        }
+    }
+    out.push(json!({"ev": "ndlaws", "ty": T::NAME, "axis": axis, "shape": lay.shape(), "lanes": lanes.iter().map(|l| l.iter().map(|x| rank2_of(&rm, x)).collect::<Vec<_>>()).collect::<Vec<_>>(),
+        "res0": res0, "res1": res1, "shape_ok": shape_ok, "failed": failed}));
+}
+
 pub fn run(case: &Value, params: &Params, out: &mut Vec<Value>) {
     let ev = jstr(case, "ev", "");
     if case.get("ty").is_none() {
@@ -474,6 +508,7 @@ pub fn run(case: &Value, params: &Params, out: &mut Vec<Value>) {
     match ev {
         "quantile" => with_qelem!(ty, quantile_ev, case, out),
         "qlaws" => with_qelem!(ty, qlaws_ev, case, out),
+        "ndlaws" => with_qelem!(ty, ndlaws_ev, case, out),
         _ => panic!("unknown quant event {ev}"),
     }
 }
@@ -599,6 +634,16 @@ pub fn gen(seed: u64, count: usize, tier: &str, params: &Params) -> Vec<Value> {
                 if (api == "axis_single" || api == "1d_single") && qs.is_empty() { continue; }
                 cases.push(json!({"ev": "quantile", "ty": ty, "strat": strat, "api": api, "lay": lay.to_json(), "axis": axis,
                                   "data": data, "bexp": bexp, "qs": qs, "pv": script, "fb": fb, "pair": pair}));
+            }
+            "ndlaws" => {
+                let nd = rng.range(2, 4) as usize;
+                let shape: Vec<usize> = (0..nd).map(|_| rng.range(1, 3) as usize).collect();
+                let axis = rng.below(nd as u64) as usize;
+                let n: usize = shape.iter().product();
+                let fancy = rng.chance(1, 2);
+                let lay = random_lay(&mut rng, &shape, fancy);
+                let data: Vec<i64> = (0..n).map(|_| rng.range(0, 60)).collect();
+                cases.push(json!({"ev": "ndlaws", "ty": *rng.pick(&["i8", "u8", "i64", "n64"]), "lay": lay.to_json(), "axis": axis, "data": data}));
             }
             _ if params.get("deep").map(|s| s == "1").unwrap_or(false) => {
                 // a run of 70..260 equal values with a few others around it: selection recurses as deep as the run is long
